@@ -234,7 +234,7 @@ func (ex *Exec) loopWrites(li *loopInfo) (comps map[string]bool, locals map[stri
 						all = true
 					}
 					comps[g.allocComp()] = true
-				case key != "" && isInert(key):
+				case key != "" && (isInert(key) || func() bool { _, f := ex.calleeKey(c); return f != nil && ex.P.readOnly(f) }()):
 					for _, a := range c.Args {
 						if _, isAddr := a.(*ssa.FieldAddr); isAddr {
 							addrComps(a)
@@ -470,6 +470,7 @@ func (ex *Exec) contractEnvTypes(con *Contract, fn *ssa.Function) (*Env, error) 
 }
 
 type lvalue struct {
+	ty    types.Type
 	comp  string
 	base  string // "" = whole component
 	kind  string // "field" | "arr" | "map" | "cell"
@@ -529,6 +530,12 @@ func (env *Env) lvalues(e Expr) []lvalue {
 		}
 		return out
 	case *EIdent:
+		if gv, ok := g.P.GhostVars[x.Name]; ok {
+			gt := env.resolveTypeIn(*gv.GType, gv.Pkg)
+			comp := "GV:" + x.Name
+			g.compDecl(comp, g.sortOfG(gt))
+			return []lvalue{{comp: comp}}
+		}
 		// captured variable / global cell
 		if v, ok := env.vars[x.Name]; ok && strings.HasPrefix(v.S, "cell:") {
 			return []lvalue{{comp: g.cellComp(v.G.T), base: strings.TrimPrefix(v.S, "cell:")}}
@@ -546,7 +553,7 @@ func (env *Env) structLvalues(stT types.Type, ref string) []lvalue {
 		if _, isSt := ft.Underlying().(*types.Struct); isSt {
 			out = append(out, env.structLvalues(ft, env.g.subRef(stT, i, ref))...)
 		} else {
-			out = append(out, lvalue{comp: env.g.fieldComp(stT, i), base: ref})
+			out = append(out, lvalue{comp: env.g.fieldComp(stT, i), base: ref, ty: ft})
 		}
 	}
 	return out
@@ -589,7 +596,7 @@ func (env *Env) fieldLvalues(stT types.Type, ref string, name string) []lvalue {
 				}
 				return env.structLvalues(ft, g.subRef(cur, i, curRef))
 			}
-			return []lvalue{{comp: g.fieldComp(cur, i), base: curRef}}
+			return []lvalue{{comp: g.fieldComp(cur, i), base: curRef, ty: ft}}
 		}
 		if _, isSt := ft.Underlying().(*types.Struct); isSt {
 			if ref != "" {
@@ -678,6 +685,11 @@ func (ex *Exec) applyContract(st *State, con *Contract, sfn *ssa.Function, c *ss
 				// element sort of (Array Int X)
 				es := strings.TrimSuffix(strings.TrimPrefix(sortS, "(Array Int "), ")")
 				fv := g.freshConst("hv", es)
+				if lv.ty != nil {
+					if rf := g.rangeFact(lv.ty, fv); rf != "" {
+						g.addFact(rf)
+					}
+				}
 				g.set(st, lv.comp, fmt.Sprintf("(store %s %s %s)", cur, lv.base, fv))
 			}
 		}
